@@ -4,7 +4,9 @@ Clause (C07): a treespec node of namedtuple class P matches only instances whose
 of a different namedtuple class with the same number of fields (same or different field names), or a plain tuple does not
 match; is_prefix / flatten_up_to / prefix_errors agree on that.  Clause (C10): tree_transpose_map matches every result
 against the inner structure, so a later result of another namedtuple class with the same arity raises ValueError instead of
-being relabelled.  Exhaustive over the listed pairs."""
+being relabelled.  Clause (C07, custom metadata): custom nodes of one registered type match exactly when their metadata
+compare equal, over a pool of metadata values including None, falsy and unhashable ones, in both directions, at depth 0 and 1:
+flatten_up_to, is_prefix and prefix_errors agree.  Exhaustive over the listed pairs."""
 from ocv.bounded._extra import run_core
 
 CORE = r'''
@@ -26,7 +28,51 @@ CANDIDATES = {'Point': lambda: Point(1, (2, 3)), 'Size': lambda: Size(1, (2, 3))
               'struct_time': lambda: time.gmtime(0)}
 SPECS = ['Point', 'TaggedPoint', 'Size', 'struct_time']
 
+class Box:
+    def __init__(self, children, tag): self.children, self.tag = list(children), tag
+    def __repr__(self): return f'Box({self.children!r}, tag={self.tag!r})'
+try:
+    optree.register_pytree_node(Box, lambda b: (tuple(b.children), b.tag), lambda tag, ch: Box(ch, tag), namespace='c07x')
+except ValueError:
+    pass
+METAS = {'None': lambda: None, 'zero': lambda: 0, 'false': lambda: False, 'empty_str': lambda: '', 'str': lambda: 'x', 'int': lambda: 7,
+         'empty_tuple': lambda: (), 'list': lambda: [1], 'dict': lambda: {'a': 1}, 'one': lambda: 1, 'true': lambda: True}
+
+def metadata_case(mp, mf, depth, deeper):
+    bad = []
+    prefix = Box([1, 2], METAS[mp]())
+    full = Box([(3, 4) if deeper else 3, 5], METAS[mf]())
+    if depth:
+        prefix, full = {'k': [prefix, 0]}, {'k': [full, (1, 2) if deeper else 9]}
+    kw = dict(namespace='c07x')
+    should = METAS[mp]() == METAS[mf]()
+    ts = optree.tree_structure(prefix, **kw)
+    try:
+        parts = ts.flatten_up_to(full); up_to = True
+    except ValueError:
+        up_to = False
+    except Exception as e:
+        up_to = f'raised {type(e).__name__}'
+    pref = ts.is_prefix(optree.tree_structure(full, **kw))
+    try:
+        errs = optree.prefix_errors(prefix, full, **kw)
+    except Exception as e:
+        errs = f'raised {type(e).__name__}: {e}'
+    what = f'prefix {prefix!r} vs full {full!r} (metadata {mp} vs {mf})'
+    if up_to is not should:
+        bad.append(('C07.custom_metadata_match', f'{what}: flatten_up_to {"succeeded" if up_to is True else "raised ValueError" if up_to is False else up_to}; expected {"success" if should else "ValueError"}'))
+    if pref is not should:
+        bad.append(('C07.custom_metadata_match', f'{what}: is_prefix = {pref}; expected {should}'))
+    if not isinstance(errs, list) or (len(errs) == 0) is not should:
+        bad.append(('C07.prefix_errors_agrees', f'{what}: prefix_errors gives {errs!r}; flatten_up_to {"succeeds" if up_to is True else "fails"}, is_prefix = {pref}'))
+    return bad
+
 def cases(tier):
+    for mp in METAS:
+        for mf in METAS:
+            for depth in (0, 1):
+                for deeper in (False, True):
+                    yield ('metadata', mp, mf, depth, deeper)
     for s in SPECS:
         for c in CANDIDATES:
             for wrap in (False, True):
@@ -37,6 +83,8 @@ def cases(tier):
 
 def check(spec):
     bad = []
+    if spec[0] == 'metadata':
+        return metadata_case(*spec[1:])
     if spec[0] == 'match':
         _, sname, cname, wrap = spec
         proto, cand = CANDIDATES[sname](), CANDIDATES[cname]()
